@@ -63,6 +63,14 @@ def cases(r, tier):
     # every other place where a SOURCE identifier is written into the Lua text verbatim: externals (read as globals)
     for kw in LUA_ONLY_KEYWORDS:
         out.append(("keyword-external", "%s: fn int -> int : external\nprint: fn *X -> void : external\nstart :: fn do\n  print(%s(1))\nend\n" % (kw, kw)))
+    # identifiers outside ASCII (a lexer error today): wherever the compiler accepts one, every place where a source name
+    # is written into the Lua text verbatim -- field names, externals -- must still give a chunk that loads (Lua names
+    # are ASCII only); variables, parameters and functions are renamed and variants are strings
+    for nm in ["\u03c1", "\u03c0r", "\u0394t", "\u03bb1", "\u00f6", "caf\u00e9", "\u5c71", "x\u0301", "\u0436"]:
+        out.append(("nonascii-name", keyword_field(nm)))
+        out.append(("nonascii-name", "%s: fn int -> int : external\nprint: fn *X -> void : external\nstart :: fn do\n  print(%s(1))\nend\n" % (nm, nm)))
+        out.append(("nonascii-name", HEADER + "E :: enum\n  %s int,\n  Other,\nend\nstart :: fn do\n  %s := 3\n  f :: fn %s: int -> int do %s + 1 end\n  print(f(%s))\n  e := E.%s 1\n  print(e)\nend\n"
+                    % (nm.capitalize() if nm[0].isascii() else nm, nm, nm + "p", nm + "p", nm, nm.capitalize() if nm[0].isascii() else nm)))
     # strings: each single byte 1..255 except '"' (0x22) where the result is valid UTF-8, plus mixtures
     singles = [chr(b) for b in range(1, 128) if b != 0x22] + ["ö", "€", "😀", "\\n", "\\q", "\\", "a\\", "\\\\", "\\\"".replace('"', "'"),
                                                                "line1\nline2", "tab\there", "cr\rhere", "\\u{41}", "\\x41", "\\065", "%d %s", "]]", "--", "[[", "\\z"]
